@@ -283,3 +283,13 @@ package engine
 //@ tag StartupSchedule config startup
 //@ tag RPSPerInstance config rps-per-instance
 //@ tag DiscardOverflow config discard_overflow
+
+//@ func New
+//@ props C05 C03
+//@ modifies nothing
+//@ ensures [engine-of-the-given-pools] fresh(result) && result.log == log && result.config == conf && result.metrics == m
+
+// A pool carries its configuration unchanged (discard_overflow, rps-per-instance, the schedules and components).
+//@ func newPool
+//@ props C03 C04 C12
+//@ ensures [pool-of-the-given-configuration] fresh(result) && result.InstancePoolConfig == conf && result.metrics == m && result.sharedGunDeps == nil
